@@ -199,7 +199,8 @@ fn observe_float(text: &str) -> Value {
 pub fn float_lattice(seed: u64, extra: u64) -> Vec<f64> {
     let mut v = vec![0.0, -0.0, 1.0, -1.0, 0.5, 1.5, -2.25, 3.0, 0.1, -0.1, 1e-5, 123456789.125, 1e15, 9007199254740993.0,
                      f64::INFINITY, f64::NEG_INFINITY, f64::NAN, f64::MAX, f64::MIN, f64::MIN_POSITIVE, 5e-324, -5e-324,
-                     2.0, -3.75, 1.0000000000000002];
+                     2.0, -3.75, 1.0000000000000002, 0.12345678901234566, 0.3, 0.7, 2.718281828459045, 3.141592653589793,
+                     123456.78901234567, 0.001953125, 98765.4321, 1.7976931348623157, 4.35, 0.57, 1234567.890123];
     let mut rng = StdRng::seed_from_u64(seed ^ 0xf10a7);
     for _ in 0..extra {
         let x = f64::from_bits(rng.gen());
@@ -256,7 +257,20 @@ pub fn gen_float(args: &Args) {
                 }
             };
             let lit = vec![observe_float(&ta), observe_float(&tb), observe_float(&long(a, &ta)), observe_float(&long(b, &tb))];
-            writeln!(f, "{}", json!({"id":id,"a":float_fields(a),"b":float_fields(b),"at":ta,"bt":tb,"cmp":cmp,"ar":ar,"lit":lit})).unwrap();
+            // spellings of a with 15 .. 20 significant digits: each denotes the float nearest to the decimal written
+            // (ground truth: Rust's correctly rounded conversion of the same text)
+            let mut spellings: Vec<Value> = Vec::new();
+            if b.to_bits() == lat[0].to_bits() && a.is_finite() && a.abs() >= 1e-3 && a.abs() < 1e9 {
+                let int_digits = format!("{:.0}", a.abs().trunc()).trim_start_matches('0').len();
+                for sig in 15usize..=20 {
+                    if sig > int_digits {
+                        let t = format!("{:.*}", sig - int_digits, a.abs());
+                        let want: f64 = t.parse().unwrap();
+                        spellings.push(json!({"text":t,"want":float_fields(want),"obs":observe_float(&t)}));
+                    }
+                }
+            }
+            writeln!(f, "{}", json!({"id":id,"a":float_fields(a),"b":float_fields(b),"at":ta,"bt":tb,"cmp":cmp,"ar":ar,"lit":lit,"spellings":spellings})).unwrap();
             id += 1;
         }
     }
